@@ -293,6 +293,10 @@ ChkApiRet(m, e, tr) ==
     \cup (IF e.evDictOk THEN {} ELSE {"C07.EventsDictAgreesWithEventList"})
     \cup (IF e.op = "integrate" /\ e.err = "none" /\ ~m.opNoop /\ ~e.success THEN {"C03.SuccessReported", "C09.SuccessReported"} ELSE {})
     \cup (IF e.op = "integrate" /\ e.err # "none" /\ e.success THEN {"C12.StatusReportsFailure"} ELSE {})
+    \* a call in which no fault was injected and whose tolerances can be met must not raise (the scenario says which calls may fail)
+    \cup (IF e.op = "integrate" /\ e.err \notin {"none", "BudgetExceeded"} /\ e.site = "none" /\ e.k \notin SeqRange(tr.expectFail) /\ ~tr.mayFail
+          THEN {"C03.CallCompletes", "C04.CallCompletes", "C05.CallCompletes", "C06.CallCompletes", "C07.CallCompletes", "C08.CallCompletes",
+                "C09.CallCompletes", "C13.CallCompletes", "C20.CallCompletes", "C02.CallCompletes"} ELSE {})
     \cup (IF e.op = "integrate" /\ e.err # "none" /\ e.site # "none"
              /\ ~((e.err = "KeyboardInterrupt" /\ e.chain[1] = "KeyboardInterrupt")
                   \/ (e.err = "FailedIntegration" /\ "Injected" \in SeqRange(e.chain)))
